@@ -66,8 +66,71 @@ def _load(env, caps):
     return party, ff, log
 
 
+def _real_replay(env):
+    """conc mode: the real find_prime_root with the real gmpy2 helpers (no oracle stubs) on the model's (l, n) and on the
+    neighbouring requests of the same instance; independent primality / order tests."""
+    from vf import kit
+    P = env.params
+    mods = kit.import_plain('mpyc.finfields', 'mpyc.gmpy', 'mpyc.gfpx')
+    ff = mods['mpyc.finfields']
+    l0 = env.fresh('l', P['lo'], P['hi'])
+
+    def isprime(x):
+        if x < 2:
+            return False
+        for q in (2, 3, 5, 7, 11, 13, 17, 19, 23, 29, 31, 37):
+            if x % q == 0:
+                return x == q
+        d, s = x - 1, 0
+        while d % 2 == 0:
+            d //= 2
+            s += 1
+        for a in (2, 3, 5, 7, 11, 13, 17, 19, 23, 29, 31, 37):
+            y = pow(a, d, x)
+            if y in (1, x - 1):
+                continue
+            for _ in range(s - 1):
+                y = y * y % x
+                if y == x - 1:
+                    break
+            else:
+                return False
+        return True
+    if P['branch'] == 'n>2':
+        n0 = env.fresh('n', 3, 1 << 16)
+        reqs = [(l0, n0)] + [(l, n) for l in range(P['lo'], P['hi']) for n in (3, 5, 7, 11, 13, 257, n0 | 1, (n0 + 2) | 1)]
+        for l, n in reqs:
+            if l < 4:
+                continue
+            p, n2, w = ff.find_prime_root(l, n=n)
+            env.check('n_result>=n', n2 >= n and isprime(n2))
+            env.check('p=3 mod 4', p % 4 == 3)
+            env.check('p=1 mod n', p % n2 == 1)
+            env.check('bit_length>=l', p.bit_length() >= l)
+            env.check('candidate_accepted_by_oracle', isprime(p))
+            env.check('root_in_range', 0 < w < p)
+            env.check('root!=1', w != 1)
+            env.check('exponent_exact', pow(w, n2, p) == 1)
+    else:
+        nn, blum = P['n'], P['blum']
+        for l in [l0] + list(range(P['lo'], P['hi'])):
+            p, n2, w = ff.find_prime_root(l, blum=blum, n=nn)
+            if l <= 2:
+                env.check('tiny', (p, n2, w) == ((3, 2, 2) if blum else (2, 1, 1)))
+                continue
+            env.check('from_prime_oracle', isprime(p))
+            env.check('bit_length<=l', p.bit_length() <= l)
+            env.check('bit_length==l', p.bit_length() == l)
+            if blum:
+                env.check('p=3 mod 4', p % 4 == 3)
+            env.check('n', n2 == nn)
+            env.check('w', w == (p - 1 if nn == 2 else 1))
+
+
 def h_root(env):
     P = env.params
+    if env.mode == 'conc':
+        return _real_replay(env)
     caps = P['caps']
     party, ff, log = _load(env, caps)
     env.encoded(ff.find_prime_root)
